@@ -395,6 +395,10 @@ func (in *inst) applyContract(n *vnode, st *State, ct *Contract, callee string, 
 		ce.vars[l[0]] = ce.eval(l[1])
 	}
 	for _, r := range ct.Requires {
+		if r.Assumed {
+			fv.note("assumed input condition of " + callee + ": " + r.Expr)
+			continue
+		}
 		t := ce.evalGoal(r.Expr)
 		id := fmt.Sprintf("%s#pre:%s.%s@%s", funcKey(fv.top), callee, r.Name, in.posKey(pos, n))
 		fv.oblige(id, "pre", in.propsFor(nil), st.reach, t, r.Expr, pos)
@@ -494,6 +498,7 @@ func (in *inst) checkpoint(n *vnode, st *State, pos token.Pos, callok string) {
 	if !in.top || fv.ct == nil || len(fv.ct.Maintain) == 0 || st.reach == "false" {
 		return
 	}
+	defer func() {}()
 	in.at, in.atNode = n.blk, n
 	ce := in.baseEnv(st)
 	in.at, in.atNode = nil, nil
@@ -508,6 +513,87 @@ func (in *inst) checkpoint(n *vnode, st *State, pos token.Pos, callok string) {
 	}
 	if ce.err != nil {
 		fv.specErr(ce.err)
+	}
+	in.frameCheckpoint(n, st, pos)
+}
+
+// frameCP is a proved intermediate frame fact: at some point of the function
+// the heap `term` agreed with the entry heap outside the function's frame.
+type frameCP struct {
+	key, term, reach string
+	tag              int
+	fact             func(l string) string
+}
+
+func (fv *FnVC) frameFact(k string, hterm string) func(l, sel string) string {
+	h0 := fv.heapOf(fv.entry, k, fv.frame[k].sort)
+	return func(l, sel string) string {
+		return implies(and("(< (root "+l+") A0)", "(not (= (root "+l+") (- 1)))", not(fv.frame[k].pred(l))), eq(sel, "(select "+h0.term+" "+l+")"))
+	}
+}
+
+// useFrameCPs makes the checkpointed frame facts available for a frame goal
+// at location sk: frame-axiom instantiation stops at checkpointed heaps, whose
+// proved fact is assumed at sk instead.
+func (fv *FnVC) useFrameCPs(k, sk, reach string) func() {
+	fv.cpStop = map[string]bool{}
+	var use []*frameCP
+	for _, cp := range fv.frameCPs {
+		if cp.key == k && fv.visible(cp.tag) && fv.reachImplies(reach, cp.reach) {
+			fv.cpStop[cp.term] = true
+			use = append(use, cp)
+		}
+	}
+	for _, cp := range use {
+		fv.assume(cp.reach, cp.fact(sk))
+	}
+	return func() { fv.cpStop = nil }
+}
+
+// frameCheckpoint proves the function's frame "so far" after a call (only
+// for heaps bounded by the frame), so that the frame obligations at the
+// returns of long functions are proved one call at a time.
+func (in *inst) frameCheckpoint(n *vnode, st *State, pos token.Pos) {
+	fv := in.fv
+	if !in.top || len(fv.frame) == 0 || fv.entry == nil {
+		return
+	}
+	var keys []string
+	for k, r := range fv.frame {
+		if r != nil {
+			keys = append(keys, k)
+		}
+	}
+	sort.Strings(keys)
+	for _, k := range keys {
+		h, ok := st.heaps[k]
+		if !ok {
+			continue
+		}
+		h0 := fv.heapOf(fv.entry, k, fv.frame[k].sort)
+		if h.term == h0.term {
+			continue
+		}
+		dup := false
+		for _, cp := range fv.frameCPs {
+			if cp.term == h.term && cp.key == k && fv.visible(cp.tag) && fv.reachImplies(st.reach, cp.reach) {
+				dup = true
+			}
+		}
+		if dup {
+			continue
+		}
+		sk := fv.decl("fc", "Loc")
+		mk := fv.frameFact(k, h.term)
+		done := fv.useFrameCPs(k, sk, st.reach)
+		goal := mk(sk, fv.loadRaw(h, sk))
+		done()
+		o := fv.oblige(fmt.Sprintf("%s#framecp:%s@%s", funcKey(fv.top), frameKeyName(k), in.posKey(pos, n)), "frame", in.propsFor(nil), st.reach, goal,
+			"assigns (checkpoint after a call): only declared locations of pre-existing objects have changed so far ("+k+")", pos)
+		o.Inherited = true
+		term := h.term
+		fv.frameCPs = append(fv.frameCPs, &frameCP{key: k, term: term, reach: st.reach, tag: fv.curTag,
+			fact: func(l string) string { return mk(l, "(select "+term+" "+l+")") }})
 	}
 }
 
@@ -1008,6 +1094,7 @@ func (in *inst) runDefers(n *vnode, st *State, x *ssa.RunDefers) {
 		}
 		// the defer is pending iff its Defer instruction was executed on this path
 		pending := fv.def("pend", "Bool", and(st.reach, d.flag))
+		fv.noteAnd(pending, st.reach)
 		cc := &d.call.Call
 		var f *ssa.Function
 		var bs []Val
@@ -1030,6 +1117,7 @@ func (in *inst) runDefers(n *vnode, st *State, x *ssa.RunDefers) {
 		sub.reach = pending
 		in.static(n, sub, f, d.args, bs, d.call.Pos())
 		skip := fv.def("skip", "Bool", and(st.reach, not(d.flag)))
+		fv.noteAnd(skip, st.reach)
 		m := fv.mergeStates([]string{sub.reach, skip}, []*State{sub, st})
 		*st = *m
 	}
@@ -1438,6 +1526,7 @@ func (in *inst) cutHeader(n *vnode, l *loopInfo, edges []*vedge, conds []string)
 	}
 	in.loopAllocPre[l] = st.alloc
 	keys, anything := in.loopWrites(l)
+	var exceptKeys []string
 	var ks []string
 	for k := range keys {
 		ks = append(ks, k)
@@ -1446,11 +1535,33 @@ func (in *inst) cutHeader(n *vnode, l *loopInfo, edges []*vedge, conds []string)
 	if anything {
 		// callees with unknown effects cannot reach the private memory; the
 		// loop's own stores (visible in its SSA) are havocked by shape below
+		// heaps the function's own frame bounds ("assigns * except S"): the loop, like the whole
+		// function, may change them only inside S or in objects allocated since entry. That is
+		// assumed for the havoc here and proved per iteration (loopframe obligations in invStep).
+		var eks []string
+		epre := map[string]*Heap{}
+		if fv.frameAny && in.loopFrames[l] == nil {
+			for k, r := range fv.frame {
+				if r != nil {
+					eks = append(eks, k)
+					epre[k] = fv.heapOf(st, k, r.sort)
+				}
+			}
+			sort.Strings(eks)
+		}
 		fv.havocAll(st, fmt.Sprintf("loop %d of %s contains calls with unknown effects", l.ord, funcKey(in.fn)))
+		for _, k := range eks {
+			st.heaps[k] = epre[k]
+			fv.havocHeap(st, k, fv.frame[k].sort, in.loopRegion(k, l), nil)
+		}
 		for _, k := range ks {
+			if epre[k] != nil {
+				continue
+			}
 			w := keys[k]
 			fv.havocHeap(st, k, w.sort, w.pred, nil)
 		}
+		exceptKeys = eks
 	} else {
 		for _, k := range ks {
 			w := keys[k]
@@ -1494,7 +1605,7 @@ func (in *inst) cutHeader(n *vnode, l *loopInfo, edges []*vedge, conds []string)
 	for k, v := range ce2.vars {
 		snapVars[k] = v
 	}
-	in.hdrState[l] = &hdrSnap{st: st.clone(), vars: snapVars, pre: pre, prevars: ce.vars, keys: keys, anything: anything}
+	in.hdrState[l] = &hdrSnap{st: st.clone(), vars: snapVars, pre: pre, prevars: ce.vars, keys: keys, anything: anything, exceptKeys: exceptKeys}
 }
 
 func (in *inst) invStep(n *vnode, edges []*vedge, conds []string) {
@@ -1549,6 +1660,19 @@ func (in *inst) invStep(n *vnode, edges []*vedge, conds []string) {
 	if ce.err != nil {
 		fv.specErr(ce.err)
 	}
+	// loops with unknown-effect calls: the heaps bounded by the function's frame stay within it
+	for _, k := range snap.exceptKeys {
+		r := fv.frame[k]
+		hNow := fv.heapOf(st, k, r.sort)
+		hHdr := fv.heapOf(snap.st, k, r.sort)
+		if hNow.term == hHdr.term {
+			continue
+		}
+		sk := fv.decl("fl", "Loc")
+		goal := implies(and("(< (root "+sk+") "+snap.st.alloc+")", "(not (= (root "+sk+") (- 1)))", not(in.loopRegion(k, l)(sk))), eq(fv.loadRaw(hNow, sk), fv.loadRaw(hHdr, sk)))
+		fv.oblige(fmt.Sprintf("%s#loopframe:%s@loop%d%s", funcKey(in.fn), sanitize(k), l.ord, esfx), "frame", in.propsFor(nil), st.reach, goal,
+			"loop writes only fresh objects or the function's frame ("+k+")", pos)
+	}
 	// loop frame: outside the loop region nothing changed since the header
 	if !snap.anything {
 		var ks []string
@@ -1565,7 +1689,7 @@ func (in *inst) invStep(n *vnode, edges []*vedge, conds []string) {
 			}
 			sk := fv.decl("fl", "Loc")
 			// locations allocated since the header are outside the claim
-			goal := implies(and("(< (root "+sk+") "+snap.st.alloc+")", not(and(w.pred(sk), in.loopRegion(k, l)(sk)))), eq(fv.loadRaw(hNow, sk), fv.loadRaw(hHdr, sk)))
+			goal := implies(and("(< (root "+sk+") "+snap.st.alloc+")", "(not (= (root "+sk+") (- 1)))", not(and(w.pred(sk), in.loopRegion(k, l)(sk)))), eq(fv.loadRaw(hNow, sk), fv.loadRaw(hHdr, sk)))
 			fv.oblige(fmt.Sprintf("%s#loopframe:%s@loop%d%s", funcKey(in.fn), sanitize(k), l.ord, esfx), "frame", in.propsFor(nil), st.reach, goal,
 				"loop writes only fresh objects or the function's frame ("+k+")", pos)
 		}
